@@ -235,7 +235,8 @@ def extra_phases(ctx, tier, seed):
     evaluations = 0
     # valgrind memcheck on the release CLI as shipped (small sample in quick, 300 runs in thorough)
     n_vg = 300 if tier == "thorough" else 16
-    specs = []
+    # every generation length once (the FFI write into the entropy buffer), then hostile command lines
+    specs = [{"argv": ["new", "-n", str(L)], "env": {}, "files": {}, "stdin_hex": None} for L in (12, 15, 18, 21, 24)]
     while len(specs) < n_vg:
         acc = cligen.rand_account(rng, simple=True)
         s = mutgen.hostile_cli(rng, acc["words"])
